@@ -42,7 +42,7 @@ def native_replay(ctx, spec, meta, harness, test_code, keep=None):
     tname = m.group(1)
     # put the test(s) next to the harness function (same module)
     modname = meta["pretty_name"].split("::")[-2]
-    ov = overlay.Overlay("%s-replay" % ctx.id, spec.harness_files, ordset=("const-only" if spec.ordset else False), substitutions=(), kani=False,
+    ov = overlay.Overlay("%s-replay" % ctx.id, spec.harness_files, ordset=("const-only" if spec.ordset else False), substitutions=spec.substitutions, kani=False,
                          ordset_cap=spec.ordset_cap)
     try:
         vf = os.path.join(ov.root, spec.crate_dir, "src", "__verif.rs")
